@@ -16,6 +16,13 @@ def gen_inputs(seed, count, path):
         "SELECT '" + "é" * 3000 + "'", "SELECT $t$" + "x" * 5000 + "$t$", "SELECT $t$" + "y" * 9000 + "$t$, 1", "SELECT " + ", ".join(str(i) for i in range(1500)),
         "SELECT 1 /* " + "c" * 4090 + " */ , 2", "\ufeffSELECT (1", "\ufeffSELECT 1 +", "\ufeff) SELECT 1", "\u00a0SELECT FROM", "\ufeff\nSELECT (", "SELECT " + " " * 4094 + "'é'", "\xef\xbb\xbfSELECT 1", "SELECT \xff 1",
     ]
+    # tagged heredocs / long tokens whose end lies 100 .. 9000 bytes after their start (look-ahead windows), and inputs with
+    # very many syntax errors (error-list handling)
+    for n in (100, 500, 520, 600, 1000, 2000, 3000, 4000, 4080, 4100, 5000, 8000, 8200, 9000):
+        special.append("SELECT JSONLength($json$" + "x" * n + "$json$) AS a, 2")
+        special.append("SELECT $$" + "é" * (n // 2) + "$$, 1")
+    special += ["SELECT (" * 70, "] " * 80 + "SELECT 1", "; ".join("SELECT (%d" % i for i in range(70)), "SELECT " + "(" * 64 + "a" + " OR b)" * 60,
+                "SELEC 1; INSRT 2; " * 40 + "SELECT 3"]
     boundary = []
     # a lexically significant fragment straddling the bufio fill boundary (4096 / 8192), inside and outside quoted contexts
     for (op, cl) in (("SELECT 1 /* ", " */ , 2; SELECT 3"), ("SELECT '", "' AS s; SELECT 3"), ("SELECT 1 AS `", "`; SELECT 3"), ("SELECT 1 -- ", "\n, 2; SELECT 3"), ("SELECT ", " , 2; SELECT 3")):
